@@ -492,6 +492,25 @@ def views_stream(ctx, cirq, n, shard=0):
             if not ok:
                 ctx.violation('views:add', f'views of r1 + r2 are not the concatenation of the views: {desc}',
                               dict(rp, other={k: dict(dtype=str(a.dtype), digits=a.tolist(), shape=list(a.shape)) for k, a in recs2.items()}))
+        # -- string form: one line per key (sorted) and instance, one digit string per qubit running over the repetitions
+        if recs and all(a.shape[0] > 0 and a.shape[2] > 0 for a in recs.values()):
+            lines = str(mk()).split('\n')
+            parsed = {}
+            for line in lines:
+                kname, _, body = line.partition('=')
+                cols = [(tok.split(' ') if ' ' in tok else list(tok)) for tok in body.split(', ')]
+                parsed.setdefault(kname, []).append(cols)
+            ok_s = sorted(parsed) == sorted(recs) and list(parsed) == sorted(recs)
+            for kname, a in recs.items():
+                inst_cols = parsed.get(kname, [])
+                ok_s = ok_s and len(inst_cols) == a.shape[1]
+                for j, cols in enumerate(inst_cols[:a.shape[1]]):
+                    ok_s = ok_s and len(cols) == a.shape[2] and all(
+                        [int(x) for x in col] == [int(a[r, j, i]) for r in range(a.shape[0])] for i, col in enumerate(cols) if len(col) == a.shape[0])
+                    ok_s = ok_s and all(len(col) == a.shape[0] for col in cols)
+            ctx.count('views:str', canon_in, nontriv, sample=dict(records=desc, text=str(mk())[:300]))
+            if not ok_s:
+                ctx.violation('views:str', f'str(result) does not spell the records: {str(mk())!r} for {desc}', rp)
         # -- JSON storage
         txt = cirq.to_json(res)
         back = cirq.read_json(json_text=txt)
